@@ -557,6 +557,11 @@ func (d *diff) defaultChanged(from, to *schema.Column) (bool, error) {
 		}
 		return !equalsStringValues(a, b), nil
 	case *schema.BoolType:
+		if _, ok := to.Type.Type.(*schema.BoolType); !ok {
+			// The column is not a boolean anymore, and the
+			// values (d1 != d2) are not compared as booleans.
+			return true, nil
+		}
 		a, err1 := boolValue(d1)
 		b, err2 := boolValue(d2)
 		if err1 == nil && err2 == nil {
